@@ -60,7 +60,24 @@ structure Parsed where
   context : Int
   timeoutSeconds : Int
   cacheSize : Int
+  /-- `config.Network.Timeout` after `*= time.Second`: a Go `int64` count of nanoseconds. -/
+  timeoutNanos : Int := timeoutSeconds * 1000000000
   deriving Repr
+
+/-- Go `int64` arithmetic wraps. -/
+def wrap64 (x : Int) : Int := (x + 2 ^ 63) % 2 ^ 64 - 2 ^ 63
+
+/-- `math.MaxInt64 / time.Second`: the largest number of seconds a `time.Duration` holds. -/
+def maxSeconds : Int := 9223372036
+
+/-- `math.MaxInt32`: the largest preload amount taken (`Context + 1`, `-Context - 1`, `uint(…)`
+    and `int(…)` conversions of it are then exact). -/
+def maxPreload : Int := 2147483647
+
+/-- The decoded integers are Go `int`/`int64` values. -/
+def Raw.InRange (r : Raw) : Prop :=
+  -2 ^ 63 ≤ r.context ∧ r.context < 2 ^ 63 ∧ -2 ^ 63 ≤ r.timeout ∧ r.timeout < 2 ^ 63 ∧
+  -2 ^ 63 ≤ r.cacheSize ∧ r.cacheSize < 2 ^ 63
 
 def defaults : Raw :=
   { hook := ["xdg-open".toList, "%url".toList],
@@ -73,7 +90,7 @@ inductive Diag where
   | primary | error | highlight | code | hook | context | timeout | cacheSize
   deriving Repr, DecidableEq
 
-/-- `postprocess` (with the validation fix). -/
+/-- `postprocess` (with the validation fixes; `Timeout *= time.Second` is `int64` arithmetic). -/
 def postprocess (r : Raw) : Except Diag Parsed :=
   match hexToAnsi r.primary with
   | none => .error .primary
@@ -89,14 +106,20 @@ def postprocess (r : Raw) : Except Diag Parsed :=
   | some c =>
   if r.hook.isEmpty then .error .hook
   else if r.context < 0 then .error .context
+  else if r.context > maxPreload then .error .context
   else if r.timeout < 0 then .error .timeout
   else if r.cacheSize < 1 then .error .cacheSize
+  else if r.timeout > maxSeconds then .error .timeout
   else .ok { hook := r.hook, colors := ⟨p, e, h, c⟩, context := r.context,
-             timeoutSeconds := r.timeout, cacheSize := r.cacheSize }
+             timeoutSeconds := r.timeout, cacheSize := r.cacheSize,
+             timeoutNanos := wrap64 (r.timeout * 1000000000) }
 
 /-- What the rest of the program needs from a configuration. -/
 def Safe (p : Parsed) : Prop :=
   p.hook ≠ [] ∧ 1 ≤ p.cacheSize ∧ 0 ≤ p.context ∧ 0 ≤ p.timeoutSeconds ∧
+  p.context ≤ maxPreload ∧
+  -- the duration the network code receives is the configured one: no wrap-around
+  p.timeoutNanos = p.timeoutSeconds * 1000000000 ∧
   (∀ s ∈ [p.colors.primary, p.colors.error, p.colors.highlight, p.colors.code],
     ∃ r g b : Nat, r ≤ 255 ∧ g ≤ 255 ∧ b ≤ 255 ∧
       s = Style.itoa r ++ ';' :: Style.itoa g ++ ';' :: Style.itoa b)
